@@ -26,7 +26,10 @@ CONTRACTS = os.path.join(HERE, "contracts")
 # ----------------------------------------------------------------------------- proof worker
 
 def verify_target(job):
-    target, tier = job
+    """Generate the VCs of one target and discharge the k-th of n slices of its obligations (obligation i belongs to
+    slice i % n; z3 terms cannot be shipped between processes, so every slice regenerates the VCs, which is cheap)."""
+    target, tier = job[0], job[1]
+    k, nsl = (job[2], job[3]) if len(job) > 2 else (0, 1)
     t0 = time.time()
     out = {"target": target, "obligations": [], "trivial": 0, "engine_error": None, "canary": "ok",
            "source": None, "failed": [], "seconds": 0.0, "trusted": [], "called": []}
@@ -48,9 +51,12 @@ def verify_target(job):
             out["source"] = v.module(modname).function_source(qual)
         out["trivial"] = ex.trivial
         timeout = 20000 if tier == "quick" else 120000
-        for o in obls:
+        out["generated"] = len(obls)
+        for i, o in enumerate(obls):
+            if i % nsl != k:
+                continue
             r = discharge(o, timeout, use_cvc5=True)
-            rec = {"name": o.name, "status": r["status"], "backend": r["backend"], "seconds": round(r["seconds"], 3)}
+            rec = {"name": o.name, "status": r["status"], "backend": r["backend"], "seconds": round(r["seconds"], 3), "index": i}
             if tier == "thorough" and r["status"] == "proved":
                 from pyvc.solve import cvc5_check
                 c5 = cvc5_check(smt2_of(o), 20000)
@@ -67,7 +73,7 @@ def verify_target(job):
             s.set("timeout", 3000)
             s.add(*cny.hyps)
             return s.check() == z3.unsat
-        cans = getattr(ex, "canaries", [])
+        cans = getattr(ex, "canaries", []) if k == 0 else []
         if cans:
             if contradictory(cans[0]):
                 out["canary"] = "vacuous: the preconditions of %s are contradictory" % target
@@ -155,6 +161,30 @@ def clause_key(name):
     return "%s:%s" % (m.group(1), m.group(2)) if m else name
 
 
+def has_examples(target):
+    from pyvc import native, spec as specmod
+    native.load_sidecars(CONTRACTS)
+    return target in specmod.EXAMPLES
+
+
+def crosscheck_job(job):
+    """CPython cross-check of the semantic model on the sidecar's examples (pyvc/crosscheck.py)."""
+    target, tier, seed = job
+    try:
+        from pyvc import native, spec as specmod, crosscheck
+        from pyvc.verifier import Verifier
+        native.load_sidecars(CONTRACTS)
+        gen = specmod.EXAMPLES[target]
+        adapter = specmod.ADAPTERS.get(target)
+        func = adapter(REPO) if adapter else native.resolve_function(REPO, target)
+        r = crosscheck.crosscheck_target(Verifier(REPO, CONTRACTS), target, gen(tier, random.Random(seed)), func,
+                                         limit=16 if tier == "quick" else 80)
+        r["target"] = target
+        return r
+    except Exception:
+        return {"target": target, "crash": traceback.format_exc()[-800:]}
+
+
 def callee_contracts(called, targets):
     """Contracts of repository functions used at call sites of this property's targets: discharged here, discharged by
     another property's check, or assumed (never discharged)."""
@@ -197,8 +227,26 @@ def main(argv=None):
     targets = list(cfg["targets"])
     jobs = [(t, tier) for t in targets]
     ctx = mp.get_context("fork")
-    with ctx.Pool(min(16, max(1, len(jobs)))) as pool:
-        results = pool.map(verify_target, jobs, chunksize=1)
+    cc_targets = [t for t in targets if "#" not in t and not t.startswith("lemma:") and has_examples(t)]
+    nsl = max(1, min(8, 16 // max(1, len(targets))))
+    jobs = [(t, tier, k, nsl) for t in targets for k in range(nsl)]
+    with ctx.Pool(min(16, max(1, len(jobs) + len(cc_targets)))) as pool:
+        cc_async = pool.map_async(crosscheck_job, [(t, tier, seed) for t in cc_targets], chunksize=1)
+        parts = pool.map(verify_target, jobs, chunksize=1)
+        cc_results = cc_async.get()
+    results = []
+    for t in targets:
+        mine = [p for p in parts if p["target"] == t]
+        r = dict(mine[0])
+        r["engine_error"] = next((p["engine_error"] for p in mine if p["engine_error"]), None)
+        r["obligations"] = sorted((o for p in mine for o in p["obligations"]), key=lambda o: o.get("index", 0))
+        r["failed"] = sorted((f for p in mine for f in p["failed"]), key=lambda o: o.get("index", 0))
+        r["seconds"] = max(p["seconds"] for p in mine)
+        r["trusted"] = sorted({x for p in mine for x in p.get("trusted", [])})
+        r["called"] = sorted({x for p in mine for x in p.get("called", [])})
+        if not r["engine_error"] and len(r["obligations"]) != mine[0].get("generated", len(r["obligations"])):
+            r["engine_error"] = "CRASH slices discharged %d of %d obligations" % (len(r["obligations"]), mine[0].get("generated", -1))
+        results.append(r)
 
     violations = []       # (text, replay_path, has_input)
     known_lines = []
@@ -228,6 +276,19 @@ def main(argv=None):
             if re.search(k["match"], key):
                 return k
         return None
+
+    # CPython cross-check of the model: a contradiction means pyvc's model excludes what the real code does
+    crosschecks = []
+    for r in cc_results:
+        if r.get("crash"):
+            crosschecks.append({"target": r["target"], "note": "cross-check harness crashed (not counted): " + r["crash"][-200:]})
+            continue
+        crosschecks.append({"target": r["target"], "inputs": r["evaluated"], "model_determines_cpython_result": r["agrees"],
+                            "model_consistent_with_cpython_result": r["consistent"], "outside_concrete_subset": r["skipped"],
+                            "contradictions": len(r["contradictions"])})
+        for c in r["contradictions"][:2]:
+            broken.append("MODEL CONTRADICTS CPYTHON for %s on %s (CPython: %s): pyvc's semantic model is unsound here; nothing "
+                          "proved about this function is believed" % (r["target"], json.dumps(c["input"])[:300], c["cpython"]))
 
     # native run-time contract check / witness pool, per function (also the vacuity witness)
     native_failures = {}
@@ -406,6 +467,7 @@ def main(argv=None):
             "lean": lean,
             "bounded_standins_and_validations": bounded,
             "native_contract_runs": native_stats,
+            "cpython_crosscheck_of_the_model": crosschecks,
             "float_mode": cfg.get("float_mode", "R: floats treated as mathematical reals"),
             "solver_seconds": round(solver_s, 2),
             "degraded_or_undecided": undecided,
